@@ -20,6 +20,7 @@ R4  legs of equal service only: a relay is created only on the equal edge of
 R5  a leg is closed only after its pending output was finished.
 """
 from .. import cfg as C
+from .. import summary as SUM
 from .. import seq as S
 from ..model import Program
 from ..report import Broken
@@ -264,6 +265,14 @@ def run(ctx):
             name = n.get("callee") or ""
             if name == "xcm_close":
                 return (opened - {fn.sn(n["args"][0]).get("name")}, eq, made)
+            closed = set()
+            for d in callees:
+                if d.file.startswith("tools/xcmrelay/"):
+                    for j in SUM.must_call_params(P, d, {"xcm_close"}):
+                        if j < len(n["args"]):
+                            closed.add(fn.sn(n["args"][j]).get("name"))
+            if closed & opened:
+                return (opened - closed, eq, made)         # a helper that closes its arguments on every path
             if name == "xrelay_create":
                 ncreate[0] += 1
                 if not eq:
